@@ -16,15 +16,18 @@
    out-of-bounds `++ptr[i - row_beg + 1]`); the order of entries inside a bucket is the
    order of the push_backs, which is what the scatter loop produces.  Index arithmetic is done
    in Z: `i -= 1; j -= 1` (mm.hpp:188-189) on an index token equal to INT64_MIN is a signed
-   overflow (UB) in the code and plain i-1 here -- found by the harness (UBSan), listed as
-   known finding C19-mm-index-decrement-overflow; a range precondition placed BEFORE the
-   decrement (which is what [chk_index] stands for) removes it.  The glue that splits
+   overflow (UB) in the pre-repair code and plain i-1 here -- found by the harness (UBSan),
+   finding C19-mm-index-decrement-overflow (fixed by f41c045: the range precondition, which
+   is what [chk_index] stands for, now precedes the decrement, so the overflow is unreachable).  The glue that splits
    a byte file into lines/tokens (std::getline, operator>> on isspace) lives in
    ocaml/fileio and is validated by byte-exact comparison with the real files.
 
-   [mm_flags]: the reader as it IS has both flags false ([mm_current]); [mm_checked] is the
-   repaired reader (index preconditions, no trailing data).  The correspondence harness is
-   switched by one line in tools/props/C19.py. *)
+   [mm_flags]: [mm_checked] (all checks on) is the reader AS IT IS since the repairs
+   f41c045 (index range before the decrement, symmetric => square), 436f08e (no trailing
+   data) and 60b70e9 (row_beg <= row_end) in /repo; this is the model the correspondence
+   harness runs (default flags "1111" in tools/props/C19.py).  [mm_current] (all checks off;
+   the name is kept for the proofs) is the reader BEFORE those repairs: it is retained only
+   as the subject of the historical refutation theorems (..._refuted). *)
 From Coq Require Import List ZArith Lia Bool String Ascii Decimal DecimalString.
 Import ListNotations.
 Local Open Scope string_scope.
